@@ -8,6 +8,7 @@ import (
 	"fmt"
 	"math"
 	"math/big"
+	"math/bits"
 
 	"github.com/paulmach/orb"
 )
@@ -51,16 +52,35 @@ func maxAbs(ps []orb.Point) float64 {
 	return m
 }
 
-// isLattice: all coordinates integers with |v| <= lim.
+// lowBitExp: e such that v = odd * 2^e (v != 0, finite).
+func lowBitExp(v float64) int {
+	fr, exp := math.Frexp(math.Abs(v))
+	m := uint64(fr * (1 << 53))
+	return exp - 53 + bits.TrailingZeros64(m)
+}
+
+// isLattice: the coordinates are integers with |v| <= lim in SOME power-of-two unit, i.e. with u the
+// largest power of two that divides every coordinate, max|v| / u <= lim. Planar measures have no
+// intrinsic unit of length and multiplying by a power of two commutes with every float operation
+// (no under/overflow in the stated domain), so exactness arguments made for the integer lattice
+// hold verbatim for its 2^k rescalings; this test is what makes the tolerances scale-free.
 func isLattice(ps []orb.Point, lim float64) bool {
+	minE, maxV := math.MaxInt32, 0.0
 	for _, p := range ps {
 		for k := 0; k < 2; k++ {
-			if p[k] != math.Trunc(p[k]) || math.Abs(p[k]) > lim {
-				return false
+			if p[k] == 0 {
+				continue
 			}
+			if e := lowBitExp(p[k]); e < minE {
+				minE = e
+			}
+			maxV = math.Max(maxV, math.Abs(p[k]))
 		}
 	}
-	return true
+	if maxV == 0 {
+		return true
+	}
+	return math.Ldexp(maxV, -minE) <= lim
 }
 
 // ---------------------------------------------------------------- rings
@@ -84,7 +104,8 @@ type ringM struct {
 //	area:     1e-12 * S   (S = sum of |products| of the shoelace terms taken relative to r[0], as orb
 //	          computes them); general-position floats additionally get 1e-9 * |area| (the property's
 //	          "relative 1e-9").
-//	centroid: 1e-9 * (1 + coordinate scale); outside the exact domain (integers |v| <= 2^12, where the
+//	centroid: 1e-9 * coordinate scale (max |v| of the ring; no absolute term: a rescaled case gets a rescaled
+//	          tolerance); outside the exact domain (integers |v| <= 2^12 in some power-of-two unit, where the
 //	          accumulated numerators are exact) plus the propagated rounding (8+2n) * 2^-53 * kappa * (max(extent, scale) + |centroid - r[0]|),
 //	          kappa = S / (2|area|) the condition number of the shoelace sum (orb forms x_i + x_j - 2*x_0 in
 //	          absolute coordinates, so each numerator term carries an ulp of the coordinate scale).
@@ -146,7 +167,7 @@ func ringTol(r orb.Ring, area float64, c [2]float64) (tolA, errA, tolC float64) 
 	}
 	errA = float64(4+n) * eps * S
 	if area != 0 {
-		tolC = 1e-9 * (1 + scale)
+		tolC = 1e-9 * scale
 		if !isLattice(r, 1<<12) {
 			kappa := S / math.Abs(2*area)
 			// numerator rounding (an ulp of the coordinate scale per term) and the relative error of the
@@ -285,7 +306,7 @@ func polygonMeasure(p orb.Polygon, scale float64) (measure, error) {
 	out.area = total
 	if total.Sign() > 0 {
 		nx, ny := zero(), zero()
-		tol := 1e-9 * (1 + scale)
+		tol := 1e-9 * scale
 		at := f64(total)
 		for i := range p {
 			a := rabs(rm[i].area)
@@ -299,7 +320,7 @@ func polygonMeasure(p orb.Polygon, scale float64) (measure, error) {
 			nx.Add(nx, rmul(w, rm[i].cRat[0]))
 			ny.Add(ny, rmul(w, rm[i].cRat[1]))
 			// propagated: the ring centroid's own tolerance and the rounding of its weight
-			tol += f64(a)/at*rm[i].tolC + 2*rm[i].errA*(1+scale+math.Abs(rm[i].cx)+math.Abs(rm[i].cy))/at
+			tol += f64(a)/at*rm[i].tolC + 2*rm[i].errA*(scale+math.Abs(rm[i].cx)+math.Abs(rm[i].cy))/at
 		}
 		out.cRat = [2]num{rquo(nx, total), rquo(ny, total)}
 		out.c = [2]float64{f64(out.cRat[0]), f64(out.cRat[1])}
@@ -326,7 +347,7 @@ func measureOf(g orb.Geometry) (measure, error) {
 			n := frac(int64(len(v)), 1)
 			out.c = [2]float64{f64(rquo(sx, n)), f64(rquo(sy, n))}
 			out.cOK = true
-			out.tolC = 1e-9 * (1 + scale)
+			out.tolC = 1e-9 * scale
 		}
 		return out, nil
 	case orb.LineString:
@@ -350,7 +371,7 @@ func measureOf(g orb.Geometry) (measure, error) {
 		if L.Sign() > 0 {
 			out.c = [2]float64{f64(rquo(mx, L)), f64(rquo(my, L))}
 			out.cOK = true
-			out.tolC = 1e-9 * (1 + scale)
+			out.tolC = 1e-9 * scale
 		}
 		return out, nil
 	case orb.Ring:
@@ -428,14 +449,14 @@ func weighted(out *measure, ms []measure) {
 	}
 	nx, ny := zero(), zero()
 	at := f64(out.area)
-	tol := 1e-9 * (1 + out.scale)
+	tol := 1e-9 * out.scale
 	for _, m := range ms {
 		if m.area.Sign() == 0 {
 			continue
 		}
 		nx.Add(nx, rmul(m.area, m.cRat[0]))
 		ny.Add(ny, rmul(m.area, m.cRat[1]))
-		tol += f64(m.area)/at*m.tolC + 2*m.errA*(1+out.scale+math.Abs(m.c[0])+math.Abs(m.c[1]))/at
+		tol += f64(m.area)/at*m.tolC + 2*m.errA*(out.scale+math.Abs(m.c[0])+math.Abs(m.c[1]))/at
 	}
 	out.cRat = [2]num{rquo(nx, out.area), rquo(ny, out.area)}
 	out.c = [2]float64{f64(out.cRat[0]), f64(out.cRat[1])}
